@@ -57,10 +57,12 @@ static void mode_rt(void){
   int nyq= c.Fs==8000?0:c.Fs==12000?1:c.Fs==16000?2:c.Fs==24000?3:4; c.bw=OPUS_AUTO; if(c.mode==VK_MODE_SILK) c.bw=OPUS_BANDWIDTH_NARROWBAND+(int)vc_below(&r,(nyq<2?nyq:2)+1); else if(c.mode==VK_MODE_HYBRID){ if(nyq<3){ c.mode=VK_MODE_SILK; c.bw=OPUS_BANDWIDTH_NARROWBAND+nyq; if(c.fidx<2) c.fidx=3; } else c.bw=OPUS_BANDWIDTH_SUPERWIDEBAND+(int)vc_below(&r,nyq-2); }
   int perch= c.mode==VK_MODE_SILK?vc_range(&r,16000,40000): c.mode==VK_MODE_HYBRID?vc_range(&r,32000,64000): c.mode==VK_MODE_CELT?vc_range(&r,48000,256000):vc_range(&r,24000,128000); c.bitrate=perch*c.ch; c.vbr=vc_below(&r,2); c.cx=VC_PICK(&r,((const int[]){0,5,10})); c.api_in=vc_below(&r,3); c.api_out=vc_below(&r,3);
   c.fch=OPUS_AUTO; c.dch=c.ch; { int q=(int)vc_below(&r,8); if(c.ch==2&&q==0) c.fch=1; else if(c.ch==2&&q==1) c.dch=1; else if(c.ch==1&&q<=1) c.dch=2; else if(c.ch==2&&q==2) c.fch=2; }   /* forced mono stream, mono decoder on a stereo stream, stereo decoder on a mono stream */
-  int mixed=(c.ch==2&&(c.fch==1||c.dch==1)); int sig=VC_PICK(&r,sigs); int ident= c.ch==2?(int)vc_below(&r,5):0; if(mixed&&ident==4) ident=3;   /* stereo identity stimuli: 0 generator default, 1 left only, 2 right only, 3 unequal level, 4 anti-phase */
+  int mixed=(c.ch==2&&(c.fch==1||c.dch==1)); int sig=VC_PICK(&r,sigs); int ident= c.ch==2?(int)vc_below(&r,6):0; if(mixed&&ident==4) ident=3;   /* 5: two different full-scale low-frequency sines (the decoder overshoots; the 16-bit output path soft-clips each channel) */
+  if(ident==5&&vc_chance(&r,2,3)) c.api_out=1;   /* stereo identity stimuli: 0 generator default, 1 left only, 2 right only, 3 unequal level, 4 anti-phase */
   double secs=2.0+vc_unit(&r)*1.5; long n=(long)(secs*c.Fs); int fs=vk_frame_samples(c.Fs,c.fidx); n=n/fs*fs; float *in=(float*)malloc(sizeof(float)*n*c.ch), *yt=(float*)calloc(n*2,sizeof(float)), *yr=(float*)calloc(n*2,sizeof(float)), *ex=(float*)malloc(sizeof(float)*n*2);
-  vc_siggen g; vs_init(&g,sig,c.Fs,c.ch,(float)(0.15+0.35*vc_unit(&r)),vc_next(&r)); vs_fill(&g,in,(int)n);
-  if(c.ch==2){ vc_siggen g2; vs_init(&g2,VC_PICK(&r,sigs),c.Fs,1,0.3f,vc_next(&r)); float *m=(float*)malloc(sizeof(float)*n); vs_fill(&g2,m,(int)n); for(long i=0;i<n;i++){ if(ident==1) in[2*i+1]=0; else if(ident==2) in[2*i]=0; else if(ident==3) in[2*i+1]=0.25f*in[2*i]; else if(ident==4) in[2*i+1]=-in[2*i]; else in[2*i+1]=0.6f*in[2*i+1]+0.4f*m[i]; } free(m); }
+  vc_siggen g; vs_init(&g,sig,c.Fs,c.ch,vc_chance(&r,1,6)?(float)(0.9+0.1*vc_unit(&r)):(float)(0.15+0.35*vc_unit(&r)),vc_next(&r));   /* 1 in 6 at digital full scale: the decoder overshoots and the 16-bit path soft-clips */ vs_fill(&g,in,(int)n);
+  double fL=60+vc_unit(&r)*340, fR=60+vc_unit(&r)*340;
+  if(c.ch==2){ vc_siggen g2; vs_init(&g2,VC_PICK(&r,sigs),c.Fs,1,0.3f,vc_next(&r)); float *m=(float*)malloc(sizeof(float)*n); vs_fill(&g2,m,(int)n); for(long i=0;i<n;i++){ if(ident==1) in[2*i+1]=0; else if(ident==2) in[2*i]=0; else if(ident==3) in[2*i+1]=0.25f*in[2*i]; else if(ident==4) in[2*i+1]=-in[2*i]; else if(ident==5){ in[2*i]=(float)sin(6.283185307*fL*i/c.Fs); in[2*i+1]=(float)sin(6.283185307*fR*i/c.Fs); } else in[2*i+1]=0.6f*in[2*i+1]+0.4f*m[i]; } free(m); }
   /* ex: what each output channel is expected to carry (the input channel itself, or the down-mix 0.5(L+R) of a mono stream / mono decoder) */
   for(long i=0;i<n;i++) for(int k=0;k<c.dch;k++) ex[i*c.dch+k]= c.ch==1?in[i]: mixed?0.5f*(in[2*i]+in[2*i+1]): in[2*i+k];
   long bt=0,br=0; int la=run_tree(&c,in,n,yt,&bt); int lr=run_ref(&c,in,n,yr,&br); char desc[300]; snprintf(desc,sizeof desc,"Fs=%d ch=%d app=%d mode=%d bw=%d frame=%d bitrate=%d vbr=%d cx=%d api %d->%d signal=%s ident=%d force_channels=%d decoder_channels=%d",c.Fs,c.ch,c.app,c.mode,c.bw,fs,c.bitrate,c.vbr,c.cx,c.api_in,c.api_out,vs_names[sig],ident,c.fch,c.dch);
